@@ -1,4 +1,76 @@
-(* C13: non-vacuity — concrete non-trivial instances. *)
-From Coq Require Import List Arith Bool NArith.
+(* C13: non-vacuity — concrete non-trivial instances satisfying the hypotheses of each theorem, and evidence that
+   the transfer families used by the correspondence check satisfy the theorems' premises. *)
+From Coq Require Import List Arith Bool NArith Lia.
 Import ListNotations.
 Require Import Verif.Model.C13 Verif.Gen.C13_NilnessTable Verif.Model.C13_Nilness Verif.Model.C13_Check.
+Require Import Verif.Proofs.C13 Verif.Proofs.C13_Lattices Verif.Proofs.C13_MapLattice Verif.Proofs.C13_Sparse Verif.Proofs.C13_Nilness.
+
+Local Existing Instance BitsSemilattice.
+
+(* an irreducible loop with a self loop, a multi-edge and an unreachable cycle: 0 -> {1,2}, 1 <-> 2, 2 -> 2, 2 -> 3 twice, 4 <-> 5 *)
+Definition g1 : list (list nat) := [[1; 2]; [2]; [1; 2; 3; 3]; []; [5]; [4]].
+Definition t1 (from to : nat) (x : N) : N := N.lor (N.ldiff x (N.of_nat to)) (N.shiftl 1 (N.of_nat from)).
+Definition e1 (b : nat) : option N := match b with 0 => Some 64%N | 2 => Some 255%N (* ignored: 2 has predecessors *) | _ => None end.
+
+Example g1_wf : wf_graph g1.
+Proof.
+  intros b i Hb Hi. unfold nn in Hb. simpl in Hb.
+  do 6 (destruct b as [|b]; [unfold outdeg, succs_of in Hi; simpl in Hi;
+         do 4 (destruct i as [|i]; [vm_compute; lia|]); lia |]). lia.
+Qed.
+
+(* gen/kill transfer functions are monotone *)
+Lemma genkill_mono g k x y : @leq N BitsSemilattice x y -> @leq N BitsSemilattice (N.lor (N.ldiff x k) g) (N.lor (N.ldiff y k) g).
+Proof.
+  unfold leq, leqb. simpl. rewrite !N.eqb_eq. intros H. apply N.bits_inj. intros n.
+  rewrite <- H at 2. rewrite !N.lor_spec, !N.ldiff_spec, !N.lor_spec.
+  destruct (N.testbit x n), (N.testbit y n), (N.testbit k n), (N.testbit g n); reflexivity.
+Qed.
+Example t1_mono : mono_transfer t1.
+Proof. intros a b x y H. apply genkill_mono. exact H. Qed.
+
+Definition g1_result (pick : list nat -> nat) : option (list N * bool) :=
+  match run g1 t1 pick 200 (init g1 e1) with
+  | Some s => Some (result_in g1 s, is_fixpoint_b g1 t1 e1 (get_in s) (get_out s))
+  | None => None
+  end.
+Example g1_runs_fifo_lifo_heap :
+  g1_result (fun w => hd 0 w) = Some ([64; 71; 71; 68; 48; 48]%N, true) /\
+  g1_result (fun w => last w 0) = Some ([64; 71; 71; 68; 48; 48]%N, true) /\
+  g1_result (pick_heap g1) = Some ([64; 71; 71; 68; 48; 48]%N, true).
+Proof. repeat split; vm_compute; reflexivity. Qed.
+
+(* ranked lattice instances for dense_terminates: bitsets of width w, the nilness lattice *)
+Example nilness_is_ranked :
+  (forall a, nil_rank a <= nil_height) /\ (forall a b : nilness, leq a b -> eqv b a = false -> nil_rank a < nil_rank b).
+Proof. exact (conj nil_rank_bound nil_rank_strict). Qed.
+
+(* the sparse harness transfer family satisfies the premise of sparse_fixpoint_least (reads only operands) *)
+Lemma sc_tself_reads_ops c i (m m' : nat -> N) :
+  (forall v, In v (ops_of (sc_instrs c) i) -> m v = m' v) -> sc_tself c i m = sc_tself c i m'.
+Proof.
+  intros H. unfold sc_tself. destruct (nth i (sc_desc c) TNone); auto.
+  - f_equal. f_equal. f_equal.
+    generalize 0%N. induction (ops_of (sc_instrs c) i) as [|e l IH]; intros acc; simpl; auto.
+    rewrite (H e) by (simpl; auto). apply IH. intros v Hv. apply H. simpl; auto.
+  - destruct (ops_of (sc_instrs c) i); auto. rewrite (H n) by (simpl; auto). reflexivity.
+Qed.
+
+(* a loop through a phi: v0 = gen; v1 = phi(v0, v2); v2 = v1 + gen *)
+Definition sc1 : scase :=
+  mkSC [([3], false); ([0; 2], true); ([1], false)] [TGen 1 0; TNone; TGen 4 2] [(3, 2%N)] [] false.
+Example sc1_solution :
+  sparse_model sc1 (fun w => hd 0 w) = Some [3; 7; 5]%N /\ sparse_model sc1 (fun w => last w 0) = Some [3; 7; 5]%N.
+Proof. split; vm_compute; reflexivity. Qed.
+
+(* MapLattice: well-formed maps over the flat constant lattice *)
+Example map_wf_examples :
+  @map_wf N FlatSemilattice [(1, 3%N); (4, 255%N)] = true /\ @map_wf N FlatSemilattice [(1, 0%N)] = false /\
+  @map_merge N FlatSemilattice [(1, 3%N); (4, 2%N)] [(4, 5%N); (7, 1%N)] = [(1, 3%N); (4, 255%N); (7, 1%N)].
+Proof. repeat split; vm_compute; reflexivity. Qed.
+
+(* DenseMapLattice.Equals identifies slices differing by trailing identities, and only those *)
+Example dense_equals_examples :
+  @dense_equals vn VNSemilattice [(NeverNil, MaybeNil)] [(NeverNil, MaybeNil); (NoNil, NoNil)] = true /\
+  @dense_equals vn VNSemilattice [(NeverNil, MaybeNil)] [(NeverNil, MaybeNil); (NoNil, NeverNil)] = false.
+Proof. split; vm_compute; reflexivity. Qed.
